@@ -370,17 +370,31 @@ def finish(tier, seed, cases, results):
         key = (c["mol"], c["level"], c["rho_mult"], c["fam"], c["nspin"])
         groups.setdefault(key, []).append((c, np.array(r["fine"][0])))
     nedges = 0
+    worst = {"same-discretisation": 0.0, "different-discretisation": 0.0}
     for key, lst in groups.items():
-        c0, f0 = lst[0]
-        for c, f in lst[1:]:
+        # states with the same (plan, ladder) evaluate the SAME expansion through different interpolation back ends:
+        # 1e-3 (measured 1.4e-5); a different plan type or ladder is a different discretisation of the same integral: both are within the
+        # definition clause's cap of the reference, so they agree to 2e-2 (measured <= 1.3e-2 over the thorough lattice)
+        pairs = []
+        firsts = {}
+        for c, f in lst:
+            sub = (c["plan"], c["formula"])
+            if sub in firsts:
+                pairs.append((firsts[sub], (c, f), 1e-3, "same-discretisation"))
+            else:
+                if firsts:
+                    pairs.append((next(iter(firsts.values())), (c, f), 2e-2, "different-discretisation"))
+                firsts[sub] = (c, f)
+        for (c0, f0), (c, f), tol, kind in pairs:
             nedges += 1
             sc = np.abs(f0).max(1, keepdims=True) + 1e-300
             d = (np.abs(f - f0) / sc).max(1)
-            if d.max() > 8e-3:
+            worst[kind] = max(worst[kind], float(d.max()))
+            if d.max() > tol:
                 j = int(np.argmax(d))
                 fails.append({"key": "path-relation;mol=%s;level=%s;rho_mult=%s;fam=%s;nspin=%s;%s/%s/%s-vs-%s/%s/%s" % (key + (c["plan"], c["formula"], c["interp"], c0["plan"], c0["formula"], c0["interp"])),
                               "msg": "feature %d computed through plan=%s ladder=%s interpolator=%s differs from plan=%s ladder=%s interpolator=%s by %.3e of its scale" % (
                                   j, c["plan"], c["formula"], c["interp"], c0["plan"], c0["formula"], c0["interp"], d.max()), "case": {"finish": True}})
     for r in results:
         r.pop("fine", None)
-    return {"fail": fails, "coverage": {"path_relation_edges": nedges, "transitions": max(nedges + sum(int(r.get("edges", 0)) for r in results), 1)}}
+    return {"fail": fails, "coverage": {"path_relation_edges": nedges, "path_relation_worst": worst, "transitions": max(nedges + sum(int(r.get("edges", 0)) for r in results), 1)}}
